@@ -134,6 +134,8 @@ ZOO = [
     ('paren', '(u8)', ['0', '1']),
     ('refparen', "&'static (u8)", ['&S1', '&S200']),
     ('ptr', '*const u8', ['&S1 as *const u8', '&S200 as *const u8']),
+    ('wideptr-slice', '*const [u8]', ['&ZOO_DATA[..2] as *const [u8]', '&ZOO_DATA[..4] as *const [u8]', '&ZOO_DATA[1..3] as *const [u8]']),
+    ('wideptr-str', '*const str', ['&ZOO_STR[..2] as *const str', '&ZOO_STR[..4] as *const str']),
     ('phantom', '::core::marker::PhantomData<Vec<u8>>', ['::core::marker::PhantomData']),
     ('vec', 'Vec<u8>', ['vec![]', 'vec![0]', 'vec![0, 1]']),
     ('str', "&'static str", ['""', '"a"', '"b"']),
@@ -164,7 +166,7 @@ ZOO_NAMES = ("#[allow(non_camel_case_types, dead_code)]\npub mod zoo_names {\n"
              "    #[derive(Debug, Clone, Copy, PartialEq, Eq, PartialOrd, Ord, Hash, Default)] pub struct Vec<T>(pub T);\n"
              "    #[derive(Debug, Clone, Copy, PartialEq, Eq, PartialOrd, Ord, Hash, Default)] pub struct String(pub u8);\n"
              "}\n#[allow(non_camel_case_types, dead_code)]\npub mod zoo_prim {\n    #[derive(Debug, Clone, Copy, PartialEq, Eq, PartialOrd, Ord, Hash, Default)] pub struct r#u8(pub bool);\n}\n")
-ZOO_PRE = ZOO_NAMES + ("macro_rules! zoo_ty { () => { u8 }; }\npub trait ZooTr { type Out; }\nimpl ZooTr for u8 { type Out = u16; }\n"
+ZOO_PRE = ZOO_NAMES + "static ZOO_DATA: [u8; 5] = [1, 2, 3, 4, 5];\nstatic ZOO_STR: &str = \"abcde\";\n" + ("macro_rules! zoo_ty { () => { u8 }; }\npub trait ZooTr { type Out; }\nimpl ZooTr for u8 { type Out = u16; }\n"
            "fn zoo_inc(x: u8) -> u8 { x.wrapping_add(1) }\nfn zoo_dec(x: u8) -> u8 { x.wrapping_sub(1) }\nfn zoo_id(x: &u8) -> &u8 { x }\nfn zoo_id2(x: &u8) -> &u8 { let _ = 2; x }\n")
 
 
@@ -270,6 +272,13 @@ mod decoys {
 '''
 
 
+# macros of the derive site that shadow std macros (textual scope): generated code that calls one of them without a path gets the decoy.
+# (`stringify!` and `unreachable!` are left out: the templates do use them unqualified - recorded in DESIGN as outside C19's statement)
+DECOY_MACROS = ''.join('    #[allow(unused_macros)] macro_rules! %s { ($($t:tt)*) => { compile_error!("generated code used the macro %s! of the derive site") }; }\n' % (m, m)
+                       for m in ('matches', 'write', 'writeln', 'format', 'format_args', 'panic', 'assert', 'assert_eq', 'assert_ne', 'debug_assert', 'debug_assert_eq', 'vec', 'todo',
+                                 'unimplemented', 'concat', 'line', 'column', 'file', 'module_path', 'cfg', 'env', 'option_env', 'print', 'println', 'eprintln', 'dbg'))
+
+
 def scope_item(body):
     """move the first `#[derive(Educe..)]` item of a case into a nested module that also has the ambient traits in scope (the case's own code stays
     outside, so its method calls are not affected); the body is returned unchanged if the item cannot be delimited or has private parts"""
@@ -300,7 +309,7 @@ def scope_item(body):
     item = body[i:end]
     if m.group(1) != 'enum' and re.search(r'(?m)^\s*(?:#\[[^\n]*\]\s*)*(?!pub\b)[a-z_][A-Za-z0-9_#]*\s*:', item):
         return body       # a private field: the harness outside the module could not reach it
-    return body[:i] + '#[allow(unused)]\nmod scoped {\n    #[allow(unused_imports)] use super::*;\n    #[allow(unused_imports)] use super::decoys::ambient::*;\n' + item + '\n}\n#[allow(unused_imports)] pub use self::scoped::Ty;\n' + body[end:]
+    return body[:i] + '#[allow(unused)]\nmod scoped {\n    #[allow(unused_imports)] use super::*;\n    #[allow(unused_imports)] use super::decoys::ambient::*;\n' + DECOY_MACROS + item + '\n}\n#[allow(unused_imports)] pub use self::scoped::Ty;\n' + body[end:]
 
 
 def with_decoys(case):
